@@ -54,6 +54,19 @@ for fn in sorted(glob.glob(f'{root}/seeded/*/meta.json')):
 out.append(f"**Independently seeded changes ({len(rows)} confirmed; {n_first} caught by the quick tier as it was, the others after the monitor was strengthened — what was added is in `seeded/<id>/meta.json` under `history`).**\n")
 out.append("| seeded change | property | needs, to manifest | caught by the quick tier | first signature |\n|---|---|---|---|---|")
 out += rows
+brows = []
+n_alarm = 0
+for fn in sorted(glob.glob(f'{root}/benign/*/meta.json')):
+    m = json.load(open(fn)); mr = m['monitor_run']
+    others = m.get('other_monitors_quick_exit', {})
+    verdict = 'silent' if mr['silent'] else '**alarm**'
+    if m.get('history'): verdict = 'false alarm at first, oracle corrected ²'; n_alarm += 1
+    o = (', '.join(sorted(others)) + ': ' + ('all silent' if all(v == 0 for v in others.values()) else 'see meta.json')) if others else '-'
+    brows.append(f"| {m['id']} | {m['property']} | {m['what']} | {verdict} | {o} |")
+out.append("")
+out.append(f"**Benign changes ({len(brows)} confirmed: observable behaviour changes, the property as stated still holds; {n_alarm} raised a false alarm at first and led to a corrected oracle).**\n")
+out.append("| benign change | property | what changes | own monitor (quick) | other monitors run against it (quick) |\n|---|---|---|---|---|")
+out += brows
 text = "\n".join(out) + "\n"
 d = open(f'{root}/DESIGN.md').read()
 a = d.index('<!-- BEGIN GENERATED TABLES -->') + len('<!-- BEGIN GENERATED TABLES -->\n')
